@@ -101,8 +101,21 @@ class RecSandbox(core.Sandbox):
             ctx.bump("inode_renumbering", configured=1)
         if any((set(kv) - {"ino", "dev"}) for kv in plan.get("stat", {}).values()):
             ctx.bump("stat_overlay", configured=1)
+        if plan.get("entropy") is not None:
+            ctx.bump("hash_seed", configured=1)
+        if plan.get("clock") is not None:
+            ctx.bump("simulated_clock", configured=1)
+        if plan.get("users") or plan.get("groups"):
+            ctx.bump("user_database", configured=1)
         # fired (from the recorded history)
         seen = set()
+        if plan.get("entropy") is not None and any(" getrandom " in l or " urandom " in l for l in log[:8]):
+            seen.add("hash_seed")
+        if plan.get("clock") is not None and any(" clock realtime " in l for l in log):
+            seen.add("simulated_clock")
+        if plan.get("users") or plan.get("groups"):
+            if any(" getpwuid " in l or " getgrgid " in l for l in log):
+                seen.add("user_database")
         for l in log:
             if " inj:" in l:
                 fired_any = True
@@ -129,7 +142,7 @@ class RecSandbox(core.Sandbox):
             seen.add("stat_overlay")
         for k in seen:
             ctx.bump(k, fired=1)
-        nontrivial = fired_any or bool(seen)
+        nontrivial = fired_any or bool(seen - {"hash_seed", "simulated_clock"})
         ctx.sigs.append((core.log_signature(log), nontrivial))
         return res
 
